@@ -130,9 +130,11 @@ func (wd *World) settledAfterBarrier(c *Call) {
 		return
 	}
 	for _, s := range wd.subs {
-		// (only jobs accepted before the call: the barrier takes its decision somewhere between
-		// its invocation and its return, and promises nothing about what was submitted after)
-		if s.h == nil || s.h.ej == nil || len(s.Exits) == 0 || s.Exits[len(s.Exits)-1] > c.Ret || s.AddRet == 0 || s.AddRet >= c.Inv {
+		// (only jobs whose function had been entered before the call: the barrier takes its
+		// decision - nothing in flight - somewhere between its invocation and its return; a job
+		// in flight before that moment has left the count, closed, by then; one that starts
+		// after it, e.g. when somebody resumes a paused worker, may be anywhere at the return)
+		if s.h == nil || s.h.ej == nil || len(s.Exits) == 0 || s.Exits[len(s.Exits)-1] > c.Ret || len(s.Entries) == 0 || s.Entries[len(s.Entries)-1] >= c.Inv {
 			continue
 		}
 		s.acquire()
